@@ -878,7 +878,8 @@ class Overlay(Widget, WidgetContainerMixin, WidgetContainerListContentsMixin, ty
         if top < 0 or bottom < 0:
             top_c.pad_trim_top_bottom(min(0, top), min(0, bottom))
 
-        return CanvasOverlay(top_c, bottom_c, left, top)
+        # a clipped edge (negative padding) has been trimmed off above: the rest starts at the border
+        return CanvasOverlay(top_c, bottom_c, max(left, 0), max(top, 0))
 
     def mouse_event(
         self,
